@@ -24,3 +24,13 @@ check_C20() {
   build_inpkg c20_sendfaults_verif_test.go
   inpkg_test inpkg TestVerifC20
 }
+
+check_C11() {
+  build_inpkg c11_tcpframing_verif_test.go
+  inpkg_test inpkg TestVerifC11
+}
+
+check_C10() {
+  build_inpkg c10_udpisolation_verif_test.go
+  inpkg_test inpkg TestVerifC10
+}
